@@ -63,6 +63,7 @@ type task struct {
 	panicV     interface{}
 	panicSt    string
 	yieldAfter bool
+	yieldEnv   bool // the pending continuation follows a transparent rendezvous
 	started    bool
 	lastStep   *Step
 }
@@ -838,6 +839,7 @@ func (s *Sched) grant(ch Choice, visible bool) {
 	if ch.Partner >= 0 {
 		p := s.tasks[ch.Partner/1000]
 		p.yieldAfter = true
+		p.yieldEnv = !visible
 		s.active = 2
 		p.wake <- ch.Partner % 1000
 	}
@@ -847,6 +849,9 @@ func (s *Sched) grant(ch Choice, visible bool) {
 func (s *Sched) transparent(en []Choice) int {
 	for i, c := range en {
 		r := s.tasks[c.Task].req
+		if r.kind == opYield && s.tasks[c.Task].yieldEnv {
+			return i
+		}
 		if r.kind != opSend && r.kind != opRecv && r.kind != opSelect {
 			continue
 		}
